@@ -130,6 +130,8 @@ def facts(src_root):
         if fn is None:
             return None
         body = [st for st in fn.body if not (isinstance(st, ast.Expr) and isinstance(st.value, ast.Constant))]
+        while len(body) == 1 and isinstance(body[0], ast.With):      # `with self._lock:` around it changes nothing here
+            body = body[0].body
         if len(body) != 1:
             return None
         st = body[0]
@@ -160,6 +162,9 @@ def facts(src_root):
                     and ast.unparse(st.value) == 'threading.Lock()'):
                 lock_ok = True
             if isinstance(st, ast.Expr) and _is_clear_call(st.value):
+                clear_in_init = True
+            if (isinstance(st, ast.Assign) and isinstance(st.targets[0], ast.Attribute) and st.targets[0].attr == '_view_lookup_cache'
+                    and isinstance(st.value, ast.Dict) and not st.value.keys):
                 clear_in_init = True
     out['lockIsLock'] = lock_ok
     out['cacheCreatedInInit'] = clear_in_init
